@@ -71,10 +71,13 @@ static void run(const Red& rd, uint64_t seed, long case0, long ncases, int npoin
   std::vector<std::string> sn = param_names<S>();
   std::set<std::string> rset(rn.begin(), rn.end());
   for (auto& z : rd.zero) if (!rset.count(z)) harness_fail("reduction " + rd.name + ": rich solution has no parameter " + z);
+  long double prev_pt[4] = {0, 0, 0, 0}; bool have_prev = false;
   for (long cs = case0; cs < case0 + ncases; cs++) {
     Rng r(seed, std::hash<std::string>()(rd.name) % 1000003 * 7919ULL + (uint64_t)cs * 2 + (sizeof(S) == 8 ? 0 : 1));
     orc::Draw ds, dr;
     os->draw(r, ds, sn);
+    // a quarter of the vectors with special values (zeros, +-1, integers, half-integers, equal parameters, zeroed families) on the simpler solution
+    { std::string what; if (r.below(4) == 0) { orc::specialise(r, *os, ds, sn, what); if (!what.empty()) LOG.count("parameter_vectors_with_special_values", 1); } }
     orich->draw(r, dr, rn);          // values for the parameters only the rich solution has (R, a_*t, ...)
     orc::Ctx base; base.sol = rd.simple; base.nx = os->nargs;
     set_ctx("reduce:" + rd.name, "setting parameters");
@@ -115,10 +118,16 @@ static void run(const Red& rd, uint64_t seed, long case0, long ncases, int npoin
     for (auto& z : rd.zero) if (masa_get_param<S>(z) != S(0)) harness_fail("specialising assignment not in force: " + z);
     LOG.count("parameter_vectors", 1);
     LOG.distinct("reductions", rd.name);
+    std::map<std::string, long double> pmap; for (auto& n : sn) pmap[n] = ds.v[n];
     for (int pt = 0; pt < npoints; pt++) {
       long double xs[4] = {0, 0, 0, 0};
-      os->point(r, xs, os->nargs);
-      for (int i = os->nargs; i < os->nargs + rd.extra; i++) xs[i] = r.uni(-2.0L, 2.0L);   // arbitrary z / t
+      // structured points and variants of the previous point (same generator as the PDE monitor), in the simpler solution's coordinates
+      orc::PointInfo pinfo;
+      orc::make_point(r, *os, pmap, prev_pt, have_prev, false, xs, pinfo);
+      for (int i = os->nargs; i < os->nargs + rd.extra; i++) xs[i] = (have_prev && r.coin()) ? prev_pt[i] : r.uni(-2.0L, 2.0L);   // arbitrary z / t (often the previous one)
+      for (int i = 0; i < 4; i++) xs[i] = (long double)(S)xs[i];
+      for (int i = 0; i < 4; i++) prev_pt[i] = xs[i];
+      have_prev = true;
       S a[4];
       orc::Ctx c = base;
       for (int i = 0; i < 4; i++) { a[i] = (S)xs[i]; if (i < os->nargs) c.x[i] = EQ::exact((orc::Q)a[i]); }
@@ -136,7 +145,8 @@ static void run(const Red& rd, uint64_t seed, long case0, long ncases, int npoin
         auto it = c.out.find(pr.second);
         if (it == c.out.end()) harness_fail("oracle of " + rd.simple + " has no " + pr.second);
         double scale = std::max(it->second.ref.e, orc::absd(it->second.ref.v));
-        double ratio = (double)fabsl((long double)vr - (long double)vs) / (u * scale);
+        double diff = (double)fabsl((long double)vr - (long double)vs);
+        double ratio = diff == 0 ? 0.0 : diff / (u * scale);   // identical values (e.g. both exactly 0 when whole families are zeroed) agree whatever the scale
         g_cmp++;
         double& m = g_max[rd.name + "|" + pr.first + "|" + (sizeof(S) == 8 ? "d" : "l")];
         if (ratio > m) m = ratio;
